@@ -256,6 +256,22 @@ def F16():
         return f"get_length_scale(method='droplet_detection') on a cylindrical grid raises {type(e).__name__}: {e}"
 
 
+def F17():
+    from pde import UnitGrid
+    from droplets import DiffuseDroplet, Emulsion
+    from droplets.image_analysis import locate_droplets
+    grid = UnitGrid([16, 14], periodic=True)
+    f = Emulsion([DiffuseDroplet([3, 2.25], 1.5, .75), DiffuseDroplet([8.25, 7], 1.75, .75),
+                  DiffuseDroplet([2.75, 12], 1.25, .75)]).get_phasefield(grid)
+    ser = locate_droplets(f, modes=2, refine=True, num_processes=1)
+    try:
+        par = locate_droplets(f, modes=2, refine=True, num_processes=2)
+    except TypeError as e:
+        return f"parallel refinement raises where the serial call succeeds: TypeError {e}"
+    if [d.data.tobytes() for d in ser] != [d.data.tobytes() for d in par]:
+        return "parallel and serial refinement differ"
+
+
 ALL = {k: v for k, v in globals().items() if k[0] == "F" and callable(v)}
 
 if __name__ == "__main__":
